@@ -92,6 +92,22 @@ def unbacked (s : St) (m part first last ty : Nat) : Bool :=
   (List.range (last + 1 - first)).any (fun i =>
     !(s.pend.any (fun p => p.m == m && p.part == part && p.off == i + first && p.stage == 0)))
 
+/-- mark the first element satisfying `f` -/
+def markFirst (f : Pend → Bool) (g : Pend → Pend) : List Pend → List Pend
+  | [] => []
+  | p :: ps => if f p then g p :: ps else p :: markFirst f g ps
+
+/-- A batch `[first,last]` of type `ty` in request `rid` carries, for each of its offsets, the oldest unsent decision
+of that type (the member may have made the same decision for a later delivery after the request was built: that one
+stays unsent and can back a later batch); the other unsent decisions for a covered offset may have been dropped
+by the client's per-offset dedupe: they become `lost`. -/
+def carry (ps : List Pend) (m rid part first last ty : Nat) : List Pend :=
+  let sent := (List.range (last + 1 - first)).foldl (fun (acc : List Pend) i =>
+    (markFirst (fun p => p.m == m && p.part == part && p.off == i + first && p.stage == 0 && p.st == ty)
+      (fun p => { p with stage := 1, rid := rid }) acc.reverse).reverse) ps
+  sent.map (fun p => if p.m == m && p.part == part && covers first last p.off && p.stage == 0
+                     then { p with lost := true } else p)
+
 def check (s : St) : Ev → Option String
   | .delivered _ _ _ _ => none
   | .ack _ _ _ _ => none
@@ -155,8 +171,7 @@ def apply (s : St) : Ev → St
   | .flushEnd m _ => { s with uncalled := s.uncalled.map (fun u => if u.1 == m then (u.1, u.2.1, false) else u) }
   | .wireAck m rid part first last ty t =>
     { s with batches := { m := m, rid := rid, part := part, first := first, last := last, ty := ty, t := t } :: s.batches,
-             pend := s.pend.map (fun p => if p.m == m && p.part == part && covers first last p.off && p.stage == 0
-                                          then { p with stage := 1, rid := rid, st := if p.st == ty then p.st else 0 } else p) }
+             pend := carry s.pend m rid part first last ty }
   | .wireRes m rid part code =>
     if code == 0 then
       { s with pend := s.pend.map (fun p => if p.m == m && p.part == part && p.stage == 1 && p.rid == rid then { p with stage := 2 } else p) }
